@@ -1,7 +1,7 @@
 (* One entry point for the extracted driver and for cases.v: (tag arg) -> result. *)
 From Coq Require Import List NArith.
 Import ListNotations.
-Require Import Wire W_C18 W_C17 W_C15 W_C14 W_C10 W_C06 W_C20 W_C11 W_Paths W_C13 W_C02 W_C12 W_C03 W_C19 W_C16.
+Require Import Wire W_C18 W_C17 W_C15 W_C14 W_C10 W_C06 W_C20 W_C11 W_Paths W_C13 W_C02 W_C12 W_C03 W_C19 W_C16 W_C05.
 Local Open Scope N_scope.
 
 Definition dispatch (v : val) : val :=
@@ -29,5 +29,6 @@ Definition dispatch (v : val) : val :=
   | VL [VN 300; a] => run_c03 a
   | VL [VN 1900; a] => run_c19 a
   | VL [VN 1600; a] => run_c16 a
+  | VL [VN 500; a] => run_c05_dropbox a
   | _ => bad_input
   end.
